@@ -78,3 +78,16 @@ impl Client {
         StreamBuilder::new(self.clone(), RequestorWantsRequestEncoder::new(endpoint))
     }
 }
+
+#[cfg(feature = "verif-hooks")]
+impl Client {
+    /// Fault injection for verification tooling: closes this client's current QUIC connection, as
+    /// if the network had dropped it. Only compiled with the off-by-default `verif-hooks` feature.
+    pub async fn verif_close_connection(&self) {
+        self.connection
+            .lock()
+            .await
+            .conn()
+            .close(0u32.into(), b"verif: injected connection loss");
+    }
+}
